@@ -428,6 +428,18 @@ func c03Generated(c *core.C) *sbom.Document {
 	}
 	n := 1 + r.Intn(10)
 	ids := gen.UniqueIDs(r, n, func(r *rand.Rand) string {
+		if r.Intn(6) == 0 {
+			// identifiers made by the library's own generator from ordinary seeds: they carry the reserved prefix
+			// but only the ones flagged "auto" are generated placeholders
+			seeds := []string{"autoconf", "automake", "x-auto-y", "node", "auto", gen.IDSpdx(r), "my-auto"}
+			switch r.Intn(3) {
+			case 0:
+				return sbom.NewNodeIdentifier(gen.Pick(r, seeds) + gen.IDSpdx(r)[:1])
+			case 1:
+				return sbom.NewNodeIdentifier("node", gen.Pick(r, seeds)+gen.IDSpdx(r)[:1])
+			}
+			return sbom.NewNodeIdentifier(gen.Pick(r, seeds), gen.IDSpdx(r))
+		}
 		if r.Intn(2) == 0 {
 			return gen.IDSpdx(r)
 		}
